@@ -132,6 +132,7 @@ theorem ord_apply {N : Nat} {s : State} (hI : Inv s) (hc : Clean s) (h : Ord N s
   | throw i x => simp [Ev.orderly] at ho
   | interrupt i x => simp [Ev.orderly] at ho
   | reinsert i ps => simp [Ev.orderly] at ho
+  | acquireFails k => simp [Ev.orderly] at ho
   | setEv ev =>
     intro j
     simp only [State.apply, State.doSetEv]
